@@ -72,23 +72,28 @@ class DataSet:
             values: list[DataSetValue] = []
 
             address_end = line.find("(", from_pos)
+            if address_end < 0:
+                # no (more) data set on this line
+                return (-1, address, values)
+
             if address_end > from_pos:
                 address = line[from_pos:address_end]
-                from_pos = address_end
+            from_pos = address_end
 
-            while from_pos > 0:
+            while True:
                 value_end_pos = line.find(")", from_pos)
+                if value_end_pos < 0:
+                    # unbalanced parenthesis: ignore the rest of the line
+                    return (-1, address, values)
+
                 values.append(DataSetValue.parse(line[from_pos + 1 : value_end_pos]))
                 from_pos = value_end_pos + 1
 
-                if from_pos == len(line):  # end of line
-                    from_pos = -1
-                    break
+                if from_pos >= len(line):  # end of line
+                    return (-1, address, values)
 
                 if line[from_pos] != "(":  # end of address element(s)
-                    break
-
-            return (from_pos if values else -1, address, values)
+                    return (from_pos, address, values)
 
         items: list[DataSet] = []
         lines = [line for line in data.splitlines() if len(line.strip())]
